@@ -129,9 +129,9 @@ def build(chk):
                         nb = um if sgn == "a>0" else up_
                         prove("local-step-lemma/%s" % nm, z3.And(unew >= zmin(ui, nb), unew <= zmax(ui, nb)), replay=rp)
                     else:
-                        if chk.tier == "quick" or nm != "interior":
-                            continue       # Burgers local step lemma: attempted in the thorough tier only (generic interior cell;
-                                           # C14: the seam is an interior face); quick tier: bounded stand-in below
+                        if nm != "interior":
+                            continue       # Burgers local step lemma at the generic interior cell (C14: the seam is an interior
+                                           # face); quick tier: only the cases with a vanishing face average; thorough: all 144
                         lo = zmin(ui, zmin(um, up_))
                         hi = zmax(ui, zmax(um, up_))
                         goal = z3.And(unew >= lo, unew <= hi)
@@ -145,6 +145,9 @@ def build(chk):
                         ncase = 0
                         for fs in itertools.product((1, -1, 0), repeat=2):
                             for ds in itertools.product((1, -1), repeat=4):
+                                if chk.tier == "quick":
+                                    ncase += 1
+                                    continue        # thorough tier only (solver budget); quick: bounded stand-in below
                                 case = [(x > 0 if s_ == 1 else (x < 0 if s_ == -1 else x == 0)) for x, s_ in zip(faces, fs)]
                                 case += [(x >= 0 if s_ == 1 else x < 0) for x, s_ in zip(dl, ds)]
                                 prove("local-step-lemma/%s/case%d" % (nm, ncase), z3.Implies(z3.And(*case), goal), replay=rp,
@@ -183,7 +186,7 @@ import flowdyn.mesh as mesh, flowdyn.modeldisc as md, flowdyn.modelphy.burgers a
 seed = int(sys.argv[1]); nrand = int(sys.argv[2])
 rng = np.random.default_rng(seed)
 bad = 0; runs = 0
-vals = [-2.0, -0.5, 0.3, 1.0, 3.0]
+vals = [-2.0, -1.0, 0.3, 1.0, 3.0]          # contains a symmetric pair: face averages that vanish exactly
 for lim in ("minmod", "vanalbada", "vanleer", "superbee"):
     for integ in ("explicit", "rk2_heun", "rk3ssp"):
         for cfl in (0.1, 0.25, 0.5):
